@@ -281,6 +281,11 @@ package encoder
 //@   ensures cacheShape() && slotsOwned()
 //@   assigns global typeAddr, global cachedOpcodeSets
 
+//@ func initEncoder$1()
+//@   props C14 C06
+//@   ensures cacheShape() && forall i :: 0 <= i && i < len(cachedOpcodeSets) ==> cachedOpcodeSets[i] == nil
+//@   assigns global typeAddr, global cachedOpcodeSets
+
 //@ func newCompiler() (c)
 //@   props C14
 //@   trusted allocation of a Compiler
@@ -313,9 +318,13 @@ package encoder
 
 //@ func CompileToGetCodeSet(ctx, typeptr) (set, err)
 //@   props C14 C06
+//@   alsotags race
 //@   requires ctx != nil
 //@   requires typeAddr != nil ==> slotsOwned()
 //@   postassume initEncoder: onFastPath(typeptr) ==> gridded(typeptr)
 //@   ensures err == nil ==> set != nil && set.Type == typeptr
 //@   ensures slotsOwned()
 //@   assigns global typeAddr, global cachedOpcodeSets, OpcodeSet.Type, Option.Flag, class T:*encoder.OpcodeSet
+
+//@ writers[C14] typeAddr: initEncoder$1
+//@ writers[C14] cachedOpcodeSets: initEncoder$1, CompileToGetCodeSet
